@@ -42,6 +42,28 @@ end package body;
 }
 
 #[test]
+fn use_clause_makes_implicit_declarations_visible_after_earlier_lookup() {
+    let mut builder = LibraryBuilder::new();
+    builder.code(
+        "libname",
+        "
+package pkg is
+  type color_t is (red, green, blue);
+end package;
+
+package pkg2 is
+  constant c0 : boolean := 1 = 2;
+  use work.pkg.color_t;
+  -- The implicit operator of color_t is visible even though = was looked up before
+  constant c1 : boolean := red = green;
+end package;
+",
+    );
+    let diagnostics = builder.analyze();
+    check_no_diagnostics(&diagnostics);
+}
+
+#[test]
 fn immediate_region_takes_precedence_over_local_visibility() {
     let mut builder = LibraryBuilder::new();
     let code = builder.code(
